@@ -52,6 +52,7 @@ def run(module, cfg_text=None, cfg=None, workers=16, env=None, timeout=900, simu
     """module: file name in SPEC_DIR (or absolute path).  cfg_text: literal cfg content
     (written to a scratch file) or cfg: file name in SPEC_DIR."""
     mpath = module if os.path.isabs(module) else os.path.join(SPEC_DIR, module)
+    workers = max(1, min(int(workers), int(os.environ.get("VH_MAX_WORKERS", "16"))))
     scratch = tempfile.mkdtemp(prefix="vh-tlc-")
     try:
         if cfg_text is not None:
